@@ -2081,7 +2081,10 @@ class unyt_array(np.ndarray):
                 out_arr = ret_class(out_arr, unit, bypass_validation=True)
         if out is not None:
             if mul != 1:
-                multiply(out, mul, out=out)
+                # scale the bare buffer: going through out itself would dispatch
+                # back here with out's stale units and recurse without end when
+                # those units carry a numeric coefficient (e.g. "3*km")
+                np.multiply(out_func, mul, out=out_func)
                 if np.shares_memory(out_arr, out):
                     mul = 1
             if isinstance(out, unyt_array):
